@@ -11,6 +11,7 @@ import random
 
 from fmon import core
 from fmon.ref import grammar as G
+from fmon.ref import algebra as A
 from workloads import sentences as S
 
 PROP = "C01"
@@ -283,6 +284,26 @@ def judge(text, m, rng, shadows=True, origin="enum"):
         ref_ok, ref_why = False, str(e)
     except RecursionError:
         m.note("reference-recursion-limit")
+        return
+    if ref_ok and A.expansion_bound(ref_ast) > 400:
+        # the term algebra is exponential in the nesting of * and **: the grammar clauses are judged
+        # at parser level only for such sentences
+        m.note("too-large-for-model-level")
+        try:
+            with core.shadow():
+                real_tree = Parser(Scanner(text).scan()).parse()
+            m.ev("ast-equals-reference")
+            rt = real_ast_to_tuple(real_tree)
+            if not ast_eq(rt, ref_ast):
+                try:
+                    alt = ast_eq(rt, G.parse_tokens(toks, call_mode="python"))
+                except G.NotSentence:
+                    alt = False
+                if not alt:
+                    m.violation("ast-equals-reference", f"real {G.fp(rt) if _printable(rt) else rt} != reference {G.fp(ref_ast)}",
+                                case=case, key="ast-differs")
+        except Exception:
+            m.cls("real:rejects-sentence")
         return
     # real, through the public API (monitored attach point)
     try:
